@@ -205,7 +205,21 @@ H1 = r'''
 extern "C" void harness() {
   unsigned char orig[16 + TAIL + 1];
   vf_write_header();
-#ifdef PREFIX_PATH
+#ifdef LAYOUT_N
+  /* layout-directed run: the record size words are concrete (so the file layout is), every payload byte is symbolic */
+  { static const unsigned lay[LAYOUT_N] = { LAYOUT_WORDS };
+    size_t off = 16;
+    for (int k = 0; k < LAYOUT_N; k++) {
+      unsigned w = lay[k];
+      vf_file_data[off] = w & 0xff; vf_file_data[off + 1] = (w >> 8) & 0xff; vf_file_data[off + 2] = (w >> 16) & 0xff; vf_file_data[off + 3] = (w >> 24) & 0xff;
+      off += 4;
+      unsigned sz = w & 0x7fffffffu;
+      for (unsigned i = 0; i < sz; i++) vf_file_data[off + i] = nondet_uchar();
+      off += sz;
+    }
+    __CPROVER_assert(off == 16 + TAIL, "harness: layout fills the tail");
+  }
+#elif defined(PREFIX_PATH)
   /* one concrete, valid path record "a" (id 0) before the symbolic tail: 08 00 00 00 'a' 00 00 00 ff ff ff ff */
   { static const unsigned char pre[12] = {8, 0, 0, 0, 'a', 0, 0, 0, 0xff, 0xff, 0xff, 0xff};
     for (int i = 0; i < 12; i++) vf_file_data[16 + i] = pre[i]; }
@@ -339,7 +353,7 @@ def unwind_rules(T, extra=()):
     return R, rules
 
 
-def _build_h1(T, mutant, prefix=False):
+def _build_h1(T, mutant, prefix=False, layout=None):
     def build(d):
         check_shadow()
         hdr, c1 = mirrored_header()
@@ -351,10 +365,14 @@ def _build_h1(T, mutant, prefix=False):
         cap = 16 + T + 4
         src = os.path.join(slicer.REPO, "src")
         steps = [gotocc_cpp(["unit.cc"], defines=["TAIL=%d" % T, "VF_FILE_CAP=%d" % cap, "VF_STR_CAP=%d" % 34, "VF_VEC_CAP=%d" % 8,
-                                                 "VF_STATE_CAP=6", "DL_MAXP=6", "DL_MAXD=6"] + (["PREFIX_PATH"] if prefix else []),
+                                                 "VF_STATE_CAP=6", "DL_MAXP=6", "DL_MAXD=6"] + (["PREFIX_PATH"] if prefix else []) +
+                            (["LAYOUT_N=%d" % len(layout), "LAYOUT_WORDS=%s" % ",".join("%uu" % ((0x80000000 if dd else 0) | sz) for dd, sz in layout)] if layout else []),
                             includes=[d, os.path.join(VERIF, "stubs", "cstdio"), os.path.join(VERIF, "stubs", "ninja_depslog"), STD,
                                       os.path.join(VERIF, "stubs"), os.path.join(VERIF, "specs"), src])]
         R, rules = unwind_rules(T)
+        if layout:
+            R = max(len(layout) + 2, max(sz for _dd, sz in layout) // 4 + 1)
+            rules = [("dl_scan.7", len(layout) + 3)] + rules
         argv = ["cbmc", "a.gb"] + CHECKS + ["--unwind", str(R), "--unwinding-assertions", "--object-bits", "12"]
 
         def post(dd, av):
@@ -396,6 +414,13 @@ def _build_h2(n1, n2, cut, mutant):
 H2_SHAPES = {"quick": [(1, 1), (2, 2), (0, 1)], "thorough": [(a, b) for a in range(0, 4) for b in range(0, 4)]}
 H3_CUTS = {"quick": [], "thorough": [3]}
 H1P_BOUNDS = {"quick": [], "thorough": [24]}
+_P, _D = False, True
+LAYOUTS = {
+    "quick": [[(_P, 8), (_D, 12)], [(_P, 8), (_D, 13)], [(_P, 5), (_P, 8)], [(_P, 8), (_D, 8)], [(_P, 8), (_P, 8), (_D, 16)]],
+    "thorough": [[(_P, a), (_D, b)] for a in (5, 6, 7, 8, 12) for b in (8, 12, 13, 16, 20)] +
+                [[(_P, a), (_P, b)] for a in (5, 8) for b in (5, 6, 8, 9)] +
+                [[(_P, 8), (_P, 8), (_D, b)] for b in (12, 16, 20)] + [[(_P, 8), (_D, 12), (_D, 16)], [(_P, 8), (_D, 16), (_P, 8)]],
+}
 
 H1_BOUNDS = {"quick": [0, 1, 4, 8], "thorough": [0, 1, 2, 3, 4, 5, 8, 9, 12, 16, 20]}
 
@@ -407,6 +432,15 @@ def jobs(tier, mutant=None):
                 bound="valid header + every tail of %d bytes; record-size limit scaled to %d" % (T, SCALED_MAXREC),
                 functions=["DepsLog::Load", "DepsLog::UpdateDeps", "DepsLog::GetDeps", "DepsLog::Deps::Deps"], weight=3.0 ** (T / 4.0))
         j.T = T
+        js.append(j)
+    for lay in LAYOUTS[tier]:
+        T = sum(4 + sz for _dd, sz in lay)
+        name = "_".join(("D%d" if dd else "P%d") % sz for dd, sz in lay)
+        j = Job("depslog.load.layout.%s" % name, _build_h1(T, mutant, layout=lay), "bounded", timeout=3400, mem_gb=16,
+                bound="valid header + records with the concrete size words %s (P = path, D = deps), every payload byte symbolic" % name,
+                functions=["DepsLog::Load", "DepsLog::UpdateDeps", "DepsLog::GetDeps", "DepsLog::Deps::Deps"], weight=1.5 * len(lay) + T / 10.0)
+        j.T = T
+        j.layout = lay
         js.append(j)
     for T in H1P_BOUNDS[tier]:
         j = Job("depslog.load.prefix_path.T%d" % T, _build_h1(T, mutant, prefix=True), "bounded", timeout=3400, mem_gb=16,
